@@ -100,8 +100,9 @@ def dOp? : List String → Option (Nat × Op K V)
   | ["append", i, k, v] => do let i ← i.toNat?; let v ← v.toInt?; if okKey k then some (i, .append k v) else none
   | ["clear", i] => do let i ← i.toNat?; some (i, .clear)
   | ["copy", i] => do let i ← i.toNat?; some (i, .copy)
-  -- pickle round trip / copy.copy / copy.deepcopy: reconstruction of the class from `__getstate__() = items()`
-  | ["pickle", i] => do let i ← i.toNat?; some (i, .copy)
+  -- pickle round trip at protocol >= 2 / copy.copy / copy.deepcopy, and at protocol 0 / 1
+  | ["pickle", i] => do let i ← i.toNat?; some (i, .pickle)
+  | ["pickle01", i] => do let i ← i.toNat?; some (i, .pickleLegacy)
   | ["createp", i, ps] => do let i ← i.toNat?; let ps ← pairs? ps; some (i, .create ps)
   | ["sift", i, fs] => do
       let i ← i.toNat?
@@ -122,6 +123,8 @@ def dOp? : List String → Option (Nat × Op K V)
 def dHOp? : List String → Option (HOp K V)
   | ["new", c, ps] => do let c ← cls? c; let ps ← pairs? ps; some (.new c ps)
   | ["newfrom", c, j] => do let c ← cls? c; let j ← j.toNat?; some (.newFrom c j)
+  -- `cls.fromkeys(keys, v)`: dict.fromkeys makes `cls()` and stores every key through `__setitem__`
+  | ["newfk", c, ks, v] => do let c ← cls? c; let ks ← keys? ks; let v ← v.toInt?; some (.new c (ks.map (fun k => (k, v))))
   | ["reorder", i, j] => do let i ← i.toNat?; let j ← j.toNat?; some (.reorder i j)
   | ["update", i, j] => do let i ← i.toNat?; let j ← j.toNat?; some (.update i j)
   | ["create", i, j] => do let i ← i.toNat?; let j ← j.toNat?; some (.create i j)
